@@ -145,6 +145,11 @@ class ElabPass:
         # From its first visit by an elaboration pass on, a module takes additions from the passes only.
         # (Their results are cached per pass, so anything the designer added later would skip the passes already run.)
         module._elaboration_started = True
+        # The same goes for the Bundle definitions it uses: several passes work from their member lists.
+        for bundle_inst in module.bundles.values():
+            _close_bundle_definition(bundle_inst.of)
+        for instbundle in module.instbundles.values():
+            _close_bundle_definition(instbundle.bundle)
 
         try:
             # Depth-first traverse instances, ensuring their targets are defined
@@ -299,3 +304,12 @@ class ElabPass:
             line += "\n"
             lines.append(line)
         return lines
+
+
+def _close_bundle_definition(bundle_def) -> None:
+    """Close `bundle_def`, and the definitions of its sub-bundles, to further additions."""
+    if bundle_def is None or getattr(bundle_def, "_elaborated", True):
+        return
+    bundle_def._elaborated = True
+    for sub in bundle_def.bundles.values():
+        _close_bundle_definition(sub.of)
